@@ -160,7 +160,7 @@ def reach(prop, pins, edges):
 
 
 def compare(prop, repo, gobkgen, env, pinfile):
-    """-> (mismatches [(name, detail)], coverage dict, touches_regenerated)"""
+    """-> (mismatches [(name, detail)], coverage dict, which regenerated layers the property reaches: "field", "curve")"""
     with open(pinfile) as f:
         base = json.load(f)
     pins, edges = current(repo, gobkgen, env)
@@ -183,7 +183,12 @@ def compare(prop, repo, gobkgen, env, pinfile):
     cov = {"source_pins_checked": len(pinned), "source_pins_mismatched": len(bad),
            "source_pins_regenerated_instead": len([n for n in cur_reach if regenerated(n)]),
            "source_pins_commit": base.get("repo_commit", "")}
-    return bad, cov, any(regenerated(n) for n in cur_reach)
+    touches = []
+    if any(regenerated(n) for n in cur_reach):
+        touches.append("field")
+    if any(n.startswith("bec.KoblitzCurve.") for n in cur_reach):
+        touches.append("curve")
+    return bad, cov, touches
 
 
 def main():
